@@ -374,7 +374,8 @@ pub fn run_c16(ctx: &Ctx) -> Report {
         if distinct_stmts > 1 {
             rep.counters.inc("histories_interleaving_statements");
         }
-        let case = cv.case();
+        let mut case = cv.case();
+        vary_transport(rng, &mut case);
         let obs = run_case(&case);
         rep.evaluations += 1;
         let pshape: String = pattern.split(' ').filter(|s| !s.is_empty()).map(|s| &s[1..]).collect::<Vec<_>>().join("");
